@@ -881,6 +881,93 @@ func runC14(args []string) int {
 			}
 			runBoth("bitslice-forged-partition", tm(), asg, false, c14Desc{Gadget: "bitslice.Partition(8,16)", Input: "0x1234", Detail: "partition hint: lower + 1"}, "bitslice:forged-partition", solver.OverrideHint(partID, forged))
 		}
+		// aliased decomposition: the prover answers with the parts (and bits) of v + p, which recompose to v in the field; every
+		// digit bound at or around the field width must exclude it
+		{
+			var nbitsID solver.HintID
+			for _, h := range solver.GetRegisteredHints() {
+				if strings.HasSuffix(solver.GetHintName(h), "math/bits.nBits") {
+					nbitsID = solver.GetHintID(h)
+				}
+			}
+			v := big.NewInt(0x1234)
+			vp := new(big.Int).Add(v, bnQ)
+			for _, digits := range []int{0, 250, 253, 254, 255, 256} {
+				for _, split := range []uint{1, 8, 128} {
+					split := split
+					lo := new(big.Int).And(vp, new(big.Int).Sub(pow2(int(split)), big.NewInt(1)))
+					up := new(big.Int).Rsh(vp, split)
+					tm := func() *bsCircuit { return &bsCircuit{split: split, digits: digits} }
+					asg := tm()
+					asg.V, asg.Lower, asg.Upper = v, lo, up
+					fpart := func(m *big.Int, in, out []*big.Int) error {
+						out[0].Set(up)
+						out[1].Set(lo)
+						return nil
+					}
+					fbits := func(m *big.Int, in, out []*big.Int) error {
+						for i := range out {
+							out[i].SetUint64(uint64(vp.Bit(i)))
+						}
+						return nil
+					}
+					runBoth("bitslice-aliased", tm(), asg, false, c14Desc{Gadget: fmt.Sprintf("bitslice.Partition(split=%d,digits=%d)", split, digits), Input: "0x1234", Detail: "partition and bit hints answer with the decomposition of v + p"},
+						"bitslice:aliased-decomposition", solver.OverrideHint(partID, fpart), solver.OverrideHint(nbitsID, fbits))
+				}
+			}
+		}
+		// bounded comparator built for deterministic behaviour (allowNonDeterministicBehaviour = false) with bounds at and beyond the
+		// documented limit P > 2^(bitlen(U)+1): either construction is refused, or both answers of a dishonest prover must not be
+		// satisfiable for operands in the threshold zone
+		{
+			var lessID, minID solver.HintID
+			for _, h := range solver.GetRegisteredHints() {
+				n := solver.GetHintName(h)
+				if strings.HasSuffix(n, "cmp.isLessOutputHint") {
+					lessID = solver.GetHintID(h)
+				}
+				if strings.HasSuffix(n, "cmp.minOutputHint") {
+					minID = solver.GetHintID(h)
+				}
+			}
+			for _, ub := range []int{250, 251, 252, 253} {
+				U := pow2(ub)
+				a := new(big.Int).Sub(pow2(253), big.NewInt(1))
+				b := big.NewInt(0)
+				accepted := 0
+				refused := false
+				for _, claimLess := range []int64{0, 1} {
+					claimLess := claimLess
+					tm := &bcCircuit{u: U}
+					asg := &bcCircuit{u: U, A: a, B: b, Less: claimLess, LessE: claimLess, Min: b}
+					if claimLess == 1 {
+						asg.Min = a
+					}
+					fless := func(m *big.Int, in, out []*big.Int) error { out[0].SetInt64(claimLess); return nil }
+					fmin := func(m *big.Int, in, out []*big.Int) error {
+						if claimLess == 1 {
+							out[0].Set(in[0])
+						} else {
+							out[0].Set(in[1])
+						}
+						return nil
+					}
+					cls, _ := solveOn(bn[0], tm, asg, solver.OverrideHint(lessID, fless), solver.OverrideHint(minID, fmin))
+					rep.Eval(fmt.Sprintf("bounded-deterministic|%d|%d", ub, claimLess), true)
+					rep.Count("bounded-deterministic:" + cls)
+					if cls == "ok" {
+						accepted++
+					}
+					if cls == "panic" || cls == "compile-error" {
+						refused = true
+					}
+				}
+				if accepted > 1 && !refused {
+					rep.Fail("c14:accepts-wrong:bounded:deterministic-flag", fmt.Sprintf("BoundedComparator(2^%d, allowNonDeterministicBehaviour=false) is constructed and both IsLess = 0 and IsLess = 1 (Min = b and Min = a) are satisfiable for a = 2^253-1, b = 0", ub),
+						c14Desc{Gadget: fmt.Sprintf("Bounded(2^%d, deterministic)", ub), Input: "a=2^253-1 b=0", Detail: "forged isLessOutputHint / minOutputHint"})
+				}
+			}
+		}
 		// selector.Map / Decoder / Partition with forged hints on BN254
 		mapG := &gadgetDef{8, "selector.Map(keys=[3 9 27])", []int64{3, 9, 27}, 4, 1, func(api frontend.API, in []frontend.Variable) []frontend.Variable {
 			return []frontend.Variable{selector.Map(api, in[0], []frontend.Variable{3, 9, 27}, in[1:])}
